@@ -29,7 +29,7 @@ def units(ctx):
             k3 = k3[ctx.seed % 2 :: 2][:3]
         for mu in k3:
             us.append(("reach", PROPERTY, "VOGP", spec, 2, 3, mu, 8, 1))
-    for spec in (("c3d", "acute"), ("c3d", "obtuse"), ("ice", 30, 4)) if ctx.thorough else (("c3d", "acute"),):
+    for spec in (("c3d", "acute"), ("c3d", "obtuse"), ("ice", 30, 4), ("ice", 65, 4)) if ctx.thorough else (("c3d", "acute"), ("ice", 65, 4)):
         for mu in reach.truths(2, 3, ctx.thorough):
             us.append(("reach", PROPERTY, "VOGP", spec, 3, 2, mu, 8, 1))
     for mu in reach.truths(2, 2, True):
